@@ -82,6 +82,21 @@ func probeSpecs() (bigs, bursts []*seqSpec) {
 			}
 		}
 	}
+	// one HTTP handler: requests refused with 413 (reply over the limit the
+	// client announced) in between ordinary requests, one request at a time
+	for _, proto := range rig.Protocols {
+		s := &seqSpec{id: id, leg: "http", proto: proto, mode: "probe-413-then-valid", conns: 1, rng: fixed}
+		for i := 0; i < 48; i++ {
+			k := []int{kPing, kHTTPOverLimit, kAdd, kEchoOK, kHTTPOverLimit, kGetBig, kUnknown, kErrInternal}[i%8]
+			r := newRequest(fixed, proto, k, genOpts{smallOnly: k != kHTTPOverLimit})
+			r.idx = i
+			s.reqs = append(s.reqs, r)
+		}
+		s.perConn = [][]*request{s.reqs}
+		s.sentinel = []*request{newSentinel(fixed, proto)}
+		bursts = append(bursts, s)
+		id++
+	}
 	return bigs, bursts
 }
 
